@@ -1,5 +1,6 @@
 import Driver.OpsSplit
 import TT.Analysis
+import TT.Spec.More16d
 namespace Driver
 open TT TT.Tree
 
@@ -82,7 +83,12 @@ def runOpAnalysis (op : String) (args : List String) : String :=
         okIf (nn.toNat? == some ncons) "node-total",
         okIf ((pt.map (·.2)).sum == ts.length) "per-tree-counts-do-not-sum",
         okIf ((pn.map (·.2)).sum == ncons) "per-node-counts-do-not-sum",
-        okIf (pt.all fun (d, c) => c == (ts.filter fun t => t.gapDegree == d).length) "per-tree-count-wrong"]
+        okIf (pt.all fun (d, c) => c == (ts.filter fun t => t.gapDegree == d).length) "per-tree-count-wrong",
+        -- the named specification predicate (TT/Spec/More16d.lean; `gapStatsOK_model`): every degree that occurs is
+        -- listed once with exactly the number of trees / constituents of that degree
+        okIf (match nt.toNat?, nn.toNat? with
+              | some a, some b => Spec.gapStatsOK ts a b pt pn
+              | _, _ => false) "per-degree-count-wrong"]
     | _, _ => bad
   | _, _ => unknownOp
 
